@@ -390,12 +390,16 @@ func (r *rw) walk(n ast.Node) {
 			// "at random" by hashing the ADDRESS of the iterator
 			// (testingDisableSeekOpt(key, uintptr(unsafe.Pointer(i)))): addresses
 			// differ from process to process, so the same seed took different
-			// paths. The address argument becomes a draw from the run's PRNG
-			// (skipping an optimisation is always legal, whoever decides it).
+			// paths. The address argument becomes a hash of the key and a
+			// per-run salt (skipping an optimisation is always legal).
 			if id, ok := x.Fun.(*ast.Ident); ok && len(x.Args) == 2 &&
 				(id.Name == "testingDisableSeekOpt" || id.Name == "testingDisableBoundsOpt") {
+				// The replacement must be a FUNCTION of the key (and of the run):
+				// Pebble evaluates the predicate twice per seek (once for the
+				// no-op shortcut, once for TrySeekUsingNext) and relies on both
+				// evaluations agreeing.
 				x.Args[1] = &ast.CallExpr{Fun: ast.NewIdent("uintptr"), Args: []ast.Expr{
-					&ast.CallExpr{Fun: &ast.SelectorExpr{X: ast.NewIdent("simrt"), Sel: ast.NewIdent("DetWord")}}}}
+					&ast.CallExpr{Fun: &ast.SelectorExpr{X: ast.NewIdent("simrt"), Sel: ast.NewIdent("DetKey")}, Args: []ast.Expr{x.Args[0]}}}}
 				r.useSim, r.changed = true, true
 				stats["detaddr"]++
 			}
